@@ -308,7 +308,7 @@ static int recFips(void)
 		{
 			size_t L = LL[i];
 			/* start, end, across an octet / 32-bit / 64-bit boundary, into the last 32 bits, inside one word */
-			size_t S[] = {0, NB - L, 8 * 77 - 3, 32 * 101 - 13, 64 * 150 - 13, NB - 32 - 12, 64 * 40 + 1};
+			size_t S[] = {0, NB - L, 8 * 77 - 3, 32 * 101 - 13, 64 * 150 - 13, L <= 44 ? NB - 32 - 12 : NB - L - 1, 64 * 40 + 1};
 			size_t ns = (thorough || L <= 26) ? 7 : 3;
 			for (v = 0; v < ns; ++v) fipsLong(b, L, S[v]);
 		}
@@ -420,7 +420,7 @@ static void recPrg(void)
 			size_t x1c[] = {0, 1, r - 1, r, r + 1, 2 * r, 2 * r + 3}, x1l = x1c[c], x2l = idx % 2 ? 5 : r, n = idx % 3 ? 32 : r + 1, alen = idx % 3 == 0 ? 0 : idx % 3 == 1 ? 7 : r;
 			octet* ann; octet* key; octet* a; octet* x1; octet* x2; octet* y1; octet* y2; octet* t; octet* dx1; octet* dx2; octet* dt; octet* sy1; octet* sy2; octet* st_;
 			void* st; void* st2; void* st3; const prg_view* pv;
-			if (!thorough && (c + idx / 7) % 7 > 2) continue;		/* quick: three of the seven length classes per (l, d, mode), rotating */
+			if (!thorough && (c + idx / 7) % 7 > 1) continue;		/* quick: two of the seven length classes per (l, d, mode), rotating */
 			ann = (octet*)xalloc(al); key = (octet*)xalloc(kl); a = (octet*)xalloc(alen); x1 = (octet*)xalloc(x1l); x2 = (octet*)xalloc(x2l);
 			vxRandBuf(ann, al); vxRandBuf(key, kl); vxRandBuf(a, alen); vxRandBuf(x1, x1l); vxRandBuf(x2, x2l);
 			y1 = (octet*)xdup(x1, x1l); y2 = (octet*)xdup(x2, x2l); t = (octet*)xalloc(n);
